@@ -80,6 +80,12 @@ Definition session_send (s : session) (seq : N) (ivs : list bytes) (o : operatio
   | _ => {| lr_sent := []; lr_codes := []; lr_outcome := OSerialize; lr_seq := seq |}   (* nothing sent: no number taken *)
   end.
 
+(* ---- V2Session.Close / closeSession: Close Session (NetFn App, 3Ch) naming the managed system's session ID ---- *)
+Definition op_close_session : operation := {| op_fn := 6; op_body := 0; op_ent := 0; op_cmd := 0x3c |}.
+Definition close_request (s : session) : request := RqCloseSession (s_remote_id s) 0.
+Definition session_close (s : session) (seq : N) (ivs : list bytes) (script : list (option bytes)) : loop_result :=
+  session_send s seq ivs op_close_session 0 (close_request s) script.
+
 (* ---- session-setup payload exchange ---- *)
 Inductive poutcome := PDone (payload : bytes) | PExpired | PSerialize | PFaulted.
 Fixpoint payload_loop (pkt : bytes) (script : list (option bytes)) (sent : nat) : nat * poutcome :=
